@@ -111,12 +111,16 @@ type M struct {
 	AsIs          bool
 	hostActivated map[string]bool
 	boundaryFired map[string]bool
-	rootFired     map[string]bool // start events fired so far (StartOnly)
+	// hostGate (as-is): the engine keeps ONE "active" gate per host node, opened
+	// by every request of the host and closed by every answer - with several
+	// tokens in the host the first answer closes it for the others too
+	hostGate  map[string]bool
+	rootFired map[string]bool // start events fired so far (StartOnly)
 }
 
 // New creates the model for a program with initial variables.
 func New(g *gen.Graph, vars map[string]any) *M {
-	m := &M{Vars: map[string]any{}, groups: map[int][]*Token{}, hostActivated: map[string]bool{}, boundaryFired: map[string]bool{}}
+	m := &M{Vars: map[string]any{}, groups: map[int][]*Token{}, hostActivated: map[string]bool{}, boundaryFired: map[string]bool{}, hostGate: map[string]bool{}}
 	for k, v := range vars {
 		m.Vars[k] = v
 	}
@@ -383,6 +387,7 @@ func (m *M) request(t *Token, n *gen.Node, attempts int) {
 	m.nextReq++
 	r := &Req{Seq: m.nextReq, Node: n, Tok: t, Attempts: attempts}
 	m.hostActivated[n.ID] = true
+	m.hostGate[n.ID] = true
 	m.Pending = append(m.Pending, r)
 	m.obs.Requests = append(m.obs.Requests, n.ID)
 }
@@ -684,6 +689,7 @@ func (m *M) Answer(i int, a Answer) Obs {
 	m.Pending = append(m.Pending[:i:i], m.Pending[i+1:]...)
 	n := r.Node
 	t := r.Tok
+	m.hostGate[n.ID] = false
 	if r.Interrupted || t.dead {
 		// the activity was interrupted: the answer has no effect
 		return m.finish()
